@@ -681,7 +681,12 @@ class Node(
                         self.parent.automate_execution = False
 
                     self.parent.starting_nodes = data_tree_starters
-                    self.parent.run()
+                    if isinstance(self.parent, Workflow):
+                        self.parent.run()  # Parent-most: never emits
+                    else:
+                        # Only the upstream children are wanted here: the parent's own
+                        # `ran` signal must not push _its_ downstream siblings
+                        self.parent.run(emit_ran_signal=False)
 
                     # And revert our workflow hack
                     if isinstance(self.parent, Workflow):
